@@ -105,13 +105,16 @@ C09Mechanism(e) ==
   THEN "asis:kidsInEquals" ELSE "unexplained"
 Mechanism(e) == CASE e.mode = "c07" -> C07Mechanism(e) [] e.mode = "c08" -> C08Mechanism(e) [] OTHER -> C09Mechanism(e)
 Failed(e) == LET cs == Clauses(e) IN SelectSeq(cs, LAMBDA c : ~c[2])
+\* a named deviation explains only the clauses it can be about
+DeviationClauses == {"copy-or-reordering-is-deep-equal", "symmetric", "deep-equal-inputs-all-two-sided", "nothing-lost"}
+MechanismFor(e, clause) == IF clause \in DeviationClauses THEN Mechanism(e) ELSE "unexplained"
 FirstFailed(e) == LET f == Failed(e) IN IF f = <<>> THEN "" ELSE f[1][1]
 
 TInit == i \in 1..Len(Trace) /\ res = "pending"
 TNext == /\ res = "pending"
-         /\ LET e == Trace[i]  ff == FirstFailed(e) IN
-            /\ res' = IF ff # "" THEN "no" ELSE IF ~ModelOK(e) THEN "drift" ELSE "yes"
-            /\ (res' = "no" => PrintT(<<"BAD", i, "prop", ff, Mechanism(e)>>))
+         /\ LET e == Trace[i]  fs == Failed(e) IN
+            /\ res' = IF fs # <<>> THEN "no" ELSE IF ~ModelOK(e) THEN "drift" ELSE "yes"
+            /\ (res' = "no" => \A q \in 1..Len(fs) : PrintT(<<"BAD", i, "prop", fs[q][1], MechanismFor(e, fs[q][1])>>))
             /\ (res' = "drift" => PrintT(<<"BAD", i, "model", "", "">>))
          /\ UNCHANGED i
 TSpec == TInit /\ [][TNext]_tvars
